@@ -45,6 +45,7 @@ PROPS = {
         "trusted": ["Model D command table (coq/Chan/CmdTable.v)", "verif-tagged gate points submit:after-lookup and process:before-cleanup"],
         "assumptions": ["mutex-protected sections are atomic"],
     },
+    "C06": hs("Data envelopes flow only while the session is established", "for C06 the send gate (ensureEstablished) is proved closed in every state but established for all five send operations and lifted over every handshake run, and the monitor's Dispatch and abort rules say that a data envelope reaches handlers only after the Established callback while a non-session input before establishment aborts the handshake (at most one failed envelope, then close).", " The send side is tied to the code by calling the five send operations on real Server/Client channels held by a scripted peer at every stage of handshake and teardown and counting what the peer sees."),
     "C07": hs("Server handshake follows the protocol order and fails closed", "for C07 the monitor enforces the stage automaton (offer, confirmation, authentication request, round trips only when the callback asked, established, one finished/failed), the single session id, and that a violating session envelope is answered with failed + reason followed by silence and close; the state-regression guard is never hit."),
     "C08": {
         "title": "Client handshake tolerates any server and reports establishment truthfully",
